@@ -5,11 +5,14 @@
 //! property's subset: no `#`, `##` operands are not macro names) written below.
 //!
 //! request : C12.run \t <api defines> \t <file> \t <file> ...          (first file = entry file)
-//!   api   : `-` or entries joined by `|`, entry = NAME followed by the value tokens (space separated)
+//!   api   : `-` or entries joined by `|`, entry = NAME followed by the value tokens (space separated), or
+//!           `name tokens := value tokens` when the name is not a single identifier (e.g. `F ( X ) := X`)
 //!   file  : name|line|line...   line = `D toks` (#define) | `U toks` (#undef) | `I name` (#include "name")
 //!           | `O` (#pragma once) | `W` (#pragma warning, a directive without effect) | `T toks` (text line)
 //!   toks  : space separated: `~` one blank, `(` `)` `,` `##`, identifiers, decimal integers, `+ - * ; = { }`
 //!   a file entry `name>real|...` is served by the include handler under the real name `real` (alias)
+//! request : C12.limit \t <api> \t <file> ...   the same program, run in a child process under `ulimit -v 2000000` and
+//!           `timeout 60` (resource test, not compared with the model); observe: `tokens <n>` | `resource-exhausted`
 //! observe : `ok <token spellings separated by blanks>` | `err <PreprocessError variant>` | `panic <file>: <message>`
 use crate::util::*;
 use std::collections::{BTreeMap, BTreeSet};
@@ -102,7 +105,8 @@ pub struct File {
 
 #[derive(Clone, Debug)]
 pub struct Program {
-    api: Vec<(String, Vec<Tok>)>,
+    /// (name tokens, value tokens): the name is passed to the real code as the concatenated spellings
+    api: Vec<(Vec<Tok>, Vec<Tok>)>,
     files: Vec<File>,
 }
 
@@ -141,7 +145,13 @@ impl Program {
         } else {
             self.api
                 .iter()
-                .map(|(n, v)| format!("{} {}", n, enc_toks(v)).trim_end().to_string())
+                .map(|(n, v)| {
+                    if n.len() == 1 && matches!(n[0], Tok::Id(_)) {
+                        format!("{} {}", enc_toks(n), enc_toks(v)).trim_end().to_string()
+                    } else {
+                        format!("{} := {}", enc_toks(n), enc_toks(v)).trim_end().to_string()
+                    }
+                })
                 .collect::<Vec<_>>()
                 .join("|")
         };
@@ -160,18 +170,22 @@ impl Program {
 
     fn decode(req: &str) -> Option<Program> {
         let f: Vec<&str> = req.split('\t').collect();
-        if f.len() < 3 || f[0] != "C12.run" {
+        if f.len() < 3 || (f[0] != "C12.run" && f[0] != "C12.limit") {
             return None;
         }
         let mut api = Vec::new();
         if f[1] != "-" {
             for e in f[1].split('|') {
                 let e = e.trim();
-                let (n, v) = match e.find(' ') {
-                    Some(i) => (&e[..i], &e[i + 1..]),
-                    None => (e, ""),
-                };
-                api.push((n.to_string(), parse_toks(v)?));
+                let words: Vec<&str> = e.split(' ').filter(|w| !w.is_empty()).collect();
+                if let Some(k) = words.iter().position(|w| *w == ":=") {
+                    api.push((parse_toks(&words[..k].join(" "))?, parse_toks(&words[k + 1..].join(" "))?));
+                } else {
+                    if words.is_empty() {
+                        return None;
+                    }
+                    api.push((vec![parse_tok(words[0])?], parse_toks(&words[1..].join(" "))?));
+                }
             }
         }
         let mut files = Vec::new();
@@ -291,11 +305,11 @@ fn lex_faithful(ts: &[Tok]) -> bool {
 
 fn program_faithful(p: &Program) -> Result<(), String> {
     for (n, v) in &p.api {
-        if parse_tok(n).map(|t| matches!(t, Tok::Id(_))) != Some(true) {
-            return Err(format!("api name {}", n));
+        if !lex_faithful(n) {
+            return Err(format!("api name {}", enc_toks(n)));
         }
         if !lex_faithful(v) {
-            return Err(format!("api value of {}", n));
+            return Err(format!("api value of {}", enc_toks(n)));
         }
     }
     let mut names = BTreeSet::new();
@@ -393,7 +407,7 @@ fn run_real(p: &Program) -> Real {
         .iter()
         .map(|f| (f.name.clone(), f.real.clone(), Program::render_file(f)))
         .collect();
-    let values: Vec<(String, String)> = p.api.iter().map(|(n, v)| (n.clone(), spell_all(v))).collect();
+    let values: Vec<(String, String)> = p.api.iter().map(|(n, v)| (spell_all(n), spell_all(v))).collect();
     let defines: Vec<(&str, &str)> = values.iter().map(|(n, v)| (n.as_str(), v.as_str())).collect();
     let entry = p.files[0].name.clone();
     let r = guard(|| {
@@ -525,6 +539,7 @@ struct RefNotes {
     /// a painted function-like macro name was followed by `(` (C leaves it alone for good)
     painted_call: bool,
     steps: u64,
+    step_limit: Option<u64>,
 }
 
 struct Reference<'a> {
@@ -634,7 +649,7 @@ impl<'a> Reference<'a> {
 
     fn tick(&mut self) -> Result<(), RefErr> {
         self.notes.steps += 1;
-        if self.notes.steps > 200_000 {
+        if self.notes.steps > self.notes.step_limit.unwrap_or(200_000) {
             Err(RefErr::Steps)
         } else {
             Ok(())
@@ -976,10 +991,16 @@ fn run_reference(p: &Program, dev: Dev, notes: &mut RefNotes) -> Result<Vec<Stri
     let mut r = Reference { macros: BTreeMap::new(), dev, notes };
     // "defines passed to compile behave exactly like #define lines placed before the first line"
     for (n, v) in &p.api {
-        let mut line = vec![Tok::Ws, Tok::Id(n.clone()), Tok::Ws];
+        let mut line = vec![Tok::Ws];
+        line.extend(n.iter().cloned());
+        line.push(Tok::Ws);
         line.extend(v.iter().cloned());
-        if dev.api_dup_keeps_first && r.macros.contains_key(n) {
-            continue;
+        if dev.api_dup_keeps_first {
+            if let Some(Tok::Id(first)) = n.iter().find(|t| **t != Tok::Ws) {
+                if r.macros.contains_key(first) {
+                    continue;
+                }
+            }
         }
         r.define(&line, !dev.api_paste_inert)?;
     }
@@ -1268,11 +1289,12 @@ fn generate(rng: &mut Rng, hist: &mut Hist) -> Vec<Program> {
             g.hist.add("file:pragma-once");
         }
     }
-    // distribute definitions: API candidates are the object-like ones placed first in the entry file
+    // distribute definitions: API candidates are the ones placed first in the entry file (a function-like one is
+    // passed with the name `NAME(params)`)
     let mut leading: Vec<usize> = Vec::new();
     for (mi, l) in &def_lines {
         let fi = g.rng.below(nfiles as u64) as usize;
-        if fi == 0 && g.macros[*mi].params.is_none() && g.rng.chance(2, 3) {
+        if fi == 0 && g.rng.chance(2, 3) {
             leading.push(*mi);
         } else {
             files[fi].lines.push(Line::Define(l.clone()));
@@ -1344,9 +1366,17 @@ fn generate(rng: &mut Rng, hist: &mut Hist) -> Vec<Program> {
         for (k, mi) in leading.iter().enumerate() {
             let line = &def_lines[*mi].1;
             if pl[k] {
-                // value = the body tokens after `~ NAME ~`
-                let value: Vec<Tok> = line.iter().skip(3).cloned().collect();
-                api.push((g.macros[*mi].name.clone(), value));
+                // name = `NAME` or `NAME(params)`, value = the body tokens after the blank that follows
+                let end = match g.macros[*mi].params {
+                    Some(_) => line.iter().position(|t| *t == Tok::RParen).unwrap_or(1),
+                    None => 1,
+                };
+                let name: Vec<Tok> = line[1..=end].to_vec();
+                let value: Vec<Tok> = line.iter().skip(end + 2).cloned().collect();
+                if g.macros[*mi].params.is_some() {
+                    g.hist.add("api:function-like-name");
+                }
+                api.push((name, value));
             } else {
                 head.push(Line::Define(line.clone()));
             }
@@ -1383,10 +1413,28 @@ fn generate(rng: &mut Rng, hist: &mut Hist) -> Vec<Program> {
 
 fn judge(p: &Program, out: &mut Out, hist: &mut Hist) {
     let req = p.encode();
+    if std::env::var("C12_TRACE").is_ok() {
+        eprintln!("TRACE {}", req);
+    }
     if let Err(why) = program_faithful(p) {
         hist.add("skip:unfaithful-rendering");
         out.case(&req, "-", &format!("SKIP:{}", why));
         return;
+    }
+    // Without persistent paint (deviation `argument-repainted`) some small programs expand to millions of tokens
+    // in the real code (and in the model, which mirrors it): predict that with the reference run in RSSL-like mode
+    // under a small budget and do not run such a program in-process.
+    {
+        let mut n0 = RefNotes { step_limit: Some(40_000), ..RefNotes::default() };
+        let r0 = run_reference(p, Dev::from_bits(8 | 16), &mut n0);
+        let big = matches!(&r0, Ok(t) if t.len() > 6000);
+        if matches!(r0, Err(RefErr::Steps)) || big {
+            hist.add("not-run:expansion-explodes-without-persistent-paint");
+            if std::env::var("C12_TRACE").is_ok() {
+                eprintln!("EXPLODES {}", req);
+            }
+            return;
+        }
     }
     let real = run_real(p);
     let obs = match &real {
@@ -1454,9 +1502,22 @@ fn judge(p: &Program, out: &mut Out, hist: &mut Hist) {
                     best = Some(bits);
                 }
             }
+            // an unused argument that RSSL expands anyway may itself need a placemarker / meet a painted name
+            let mut ne = RefNotes::default();
+            let _ = run_reference(p, Dev::from_bits(8), &mut ne);
             if let Some(b) = best {
                 class = Dev::names(b);
-            } else if notes.painted_call {
+            } else if notes.painted_call || ne.painted_call {
+                // C never expands a painted name again; RSSL only remembers the macro it applied last
+                // (`last_macro_function_index`) and re-enables everything else once a body has been rescanned
+                class = if notes.painted_call {
+                    "painted-function-name-reinvoked".to_string()
+                } else {
+                    format!("{}+painted-function-name-reinvoked", DEV_NAMES[3])
+                };
+            } else if !notes.used_placemarker && ne.used_placemarker {
+                class = format!("{}+{}", DEV_NAMES[1], DEV_NAMES[3]);
+            } else if false {
                 // C never expands a painted name again; RSSL only remembers the macro it applied last
                 // (`last_macro_function_index`) and re-enables everything else once a body has been rescanned
                 class = "painted-function-name-reinvoked".to_string();
@@ -1466,7 +1527,7 @@ fn judge(p: &Program, out: &mut Out, hist: &mut Hist) {
                 class = DEV_NAMES[1].to_string();
             } else {
                 let mut seen = BTreeSet::new();
-                if p.api.iter().any(|(n, _)| !seen.insert(n.clone())) {
+                if p.api.iter().any(|(n, _)| !seen.insert(enc_toks(n))) {
                     // two entries of one name stay in the macro list side by side: whichever is not disabled is used
                     class = DEV_NAMES[5].to_string();
                 }
@@ -1499,10 +1560,77 @@ fn judge(p: &Program, out: &mut Out, hist: &mut Hist) {
     out.case(&req, &obs, &oracle);
 }
 
+/// resource test: the real code in a child process with bounded memory and time
+fn judge_limit(line: &str, p: &Program, out: &mut Out, hist: &mut Hist) {
+    if let Err(why) = program_faithful(p) {
+        out.case(line, "-", &format!("SKIP:{}", why));
+        return;
+    }
+    let exe = std::env::current_exe().map(|e| e.display().to_string()).unwrap_or_else(|_| "harness".into());
+    let tmp = std::env::temp_dir().join(format!("c12-limit-{}.txt", std::process::id()));
+    let _ = std::fs::write(&tmp, format!("{}\n", p.encode()));
+    let res = std::process::Command::new("sh")
+        .arg("-c")
+        .arg(format!("ulimit -v 2000000; exec timeout 60 {} c12 --requests {}", exe, tmp.display()))
+        .env("C12_CHILD", "1")
+        .output();
+    let _ = std::fs::remove_file(&tmp);
+    let text = res.as_ref().map(|o| String::from_utf8_lossy(&o.stdout).to_string()).unwrap_or_default();
+    let count: Option<u64> = text.lines().find_map(|l| l.strip_prefix("COUNT ")).and_then(|n| n.trim().parse().ok());
+    let mut notes = RefNotes::default();
+    let expected = run_reference(p, Dev::default(), &mut notes);
+    let n_c = match &expected {
+        Ok(t) => t.len() as u64,
+        Err(_) => 0,
+    };
+    let obs = match count {
+        Some(n) => format!("tokens {}", n),
+        None => "resource-exhausted".to_string(),
+    };
+    let blown = match count {
+        Some(n) => n > 1000 * n_c.max(1),
+        None => true,
+    };
+    if blown && expected.is_ok() {
+        hist.add("limit:blow-up");
+        out.case(
+            line,
+            &obs,
+            &format!(
+                "FAIL:differs-from-C[expansion-explodes-without-persistent-paint] C yields {} tokens, the real code: {}",
+                n_c, obs
+            ),
+        );
+    } else {
+        hist.add("limit:fine");
+        out.case(line, &obs, "ok");
+    }
+}
+
 pub fn run(args: &Args, out: &mut Out) {
     let mut hist = Hist::default();
+    if std::env::var("C12_CHILD").is_ok() {
+        // child of a resource test: run the real code only and report the size of its output
+        for line in args.request_lines().unwrap_or_default() {
+            if let Some(p) = Program::decode(&line) {
+                match run_real(&p) {
+                    Real::Ok(t) => println!("COUNT {}", t.len()),
+                    Real::Err(e) => println!("ERR {}", e),
+                    Real::Panic(m) => println!("PANIC {}", m),
+                }
+            }
+        }
+        return;
+    }
     if let Some(lines) = args.request_lines() {
         for line in lines {
+            if line.starts_with("C12.limit\t") {
+                match Program::decode(&line) {
+                    Some(p) if !p.files.is_empty() => judge_limit(&line, &p, out, &mut hist),
+                    _ => out.case(&line, "-", "SKIP:bad-request"),
+                }
+                continue;
+            }
             match Program::decode(&line) {
                 Some(p) if !p.files.is_empty() => judge(&p, out, &mut hist),
                 _ => out.case(&line, "-", "SKIP:bad-request"),
